@@ -350,6 +350,13 @@ func (w *svcWorld) replayJSON(ops []*schema.OperationDoc) (interface{}, error) {
 // finalAgreement: all subscribed clients of a key agree with each other, with the server's
 // rebuild and with the replay of the stored log.
 func (w *svcWorld) finalAgreement() (string, string) {
+	for _, cl := range w.cls {
+		for _, d := range cl.DTs {
+			if f := d.TransitionFault(); f != "" {
+				return "false-state-report", fmt.Sprintf("%s/%s: %s", cl.Alias, d.Key, f)
+			}
+		}
+	}
 	for key, dts := range w.subscribedDTs() {
 		dd := w.b.Datatype(w.colNum, key)
 		if dd == nil {
